@@ -16,6 +16,7 @@ mod proxy;
 mod refpeer;
 mod scen_adv;
 mod scen_c08;
+mod scen_c08u;
 mod scen_c10;
 mod scen_c12;
 mod scen_c14;
@@ -44,6 +45,7 @@ fn generate(prop: &str, seed: u64, thorough: bool) -> Option<Plan> {
         "C06" => Some(scen_adv::gen_adv("C06", seed, thorough)),
         "C07" => Some(scen_adv::gen_adv("C07", seed, thorough)),
         "C08" => Some(scen_c08::gen_c08(seed, thorough)),
+        "C08udp" => Some(scen_c08u::gen_c08u(seed, thorough)),
         "C09" => Some(scen_tcp::gen_c09(seed, thorough)),
         "C10" => Some(scen_c10::gen_c10(seed, thorough)),
         "C11model" => Some(scen_pw::gen_c11_model(seed, thorough)),
@@ -66,6 +68,7 @@ fn execute(plan: &Plan) -> Outcome {
         "local-hs" => scen_local::execute_c13(plan),
         "teardown" => scen_c15::execute_c15(plan),
         "survival" => scen_c08::execute_c08(plan),
+        "survival-udp" => scen_c08u::execute_c08u(plan),
         "udp-system" => scen_udp::execute_udp(plan),
         "pw-model" => scen_pw::execute_pw(plan),
         "config-names" => scen_c16::execute_c16(plan),
